@@ -26,11 +26,16 @@ unless the library crashes):
                with in_current_data still pointing into the caller's previous, long gone request chunk: ASan
                heap-use-after-free in the callback (new C01 finding; with an OK callback the same dangling pointer is
                handed over with length 0)
+  connect_rerun  allow STOP/ERROR from a request-side callback in a history that contains a CONNECT request. A refused
+               CONNECT (non-2xx) makes RES_BODY_DETERMINE overwrite in_status STOP with DATA (known C09 finding), the
+               request head is then processed a second time and htp_tx_process_request_headers overwrites
+               tx->request_hostname without freeing it (htp_transaction.c:500): LeakSanitizer, 35 bytes (C01 facet of
+               the C09 finding; request side)
 """
 import sys, random
 
 CR, LF = 13, 10
-DEFAULT_FLAGS = {"f1": True, "destroy_uaf": False, "stale_receiver": False}
+DEFAULT_FLAGS = {"f1": True, "destroy_uaf": False, "stale_receiver": False, "connect_rerun": False}
 RES_HOOKS = [10, 11, 12, 13, 14, 15, 16, 17, 18]
 
 
@@ -396,14 +401,22 @@ def request(rng, kind=None):
     return b"GET / HTTP/1.1\r\n\r\n"
 
 
+def tame_script(entries, has_connect, flags):
+    if has_connect and not flags["connect_rerun"]:
+        return [(h, k, 1 if (h <= 9 and a in (2, 3)) else a) for h, k, a in entries]
+    return entries
+
+
 def gen_reqres(rng, n, flags):
     """interleaved histories: request i, then response i (whole or cut), sometimes pipelined, CONNECT / HEAD / Expect"""
     out = []
     while len(out) < n:
         ops = ["O"]
         pend = 0
+        has_connect = False
         for _ in range(rng.choice([1, 2, 2, 3])):
             kind = rng.choice(["get", "get", "head", "post", "connect", "expect", "get09", "put"])
+            has_connect = has_connect or kind == "connect"
             rq = request(rng, kind)
             ops += ops_for(rq, rng.sample(range(1, len(rq)), rng.choice([0, 0, 1, 2])), op="Q")
             if kind == "expect":
@@ -438,7 +451,7 @@ def gen_reqres(rng, n, flags):
         entries = []
         if rng.random() < 0.25:
             entries.append((rng.choice([0, 1, 4, 9, 10, 11, 13, 14, 17, 18]), rng.randint(0, 2), rng.choice([1, 2, 3])))
-        out.append(mkcase(ops + tail_ops(rng), rnd_cfg(rng, rng.random() < 0.3), mkscript(entries)))
+        out.append(mkcase(ops + tail_ops(rng), rnd_cfg(rng, rng.random() < 0.3), mkscript(tame_script(entries, has_connect, flags))))
     return out[:n]
 
 
@@ -505,7 +518,7 @@ def gen_reqres_merge(rng, n, flags):
         # a request that dies of the hard limit inside its header block leaves the receiver un-flushed: see stale_receiver
         small = rng.random() < 0.15 and flags["stale_receiver"]
         cfg = mkcfg(p=rng.randint(0, 9), hard=rng.randint(16, 64)) if small else rnd_cfg(rng, rng.random() < 0.3)
-        out.append(mkcase(ops + tail_ops(rng), cfg, mkscript(entries)))
+        out.append(mkcase(ops + tail_ops(rng), cfg, mkscript(tame_script(entries, "connect" in kinds, flags))))
     return out[:n]
 
 
